@@ -1,4 +1,4 @@
-import Lemmas.NumFrame
+import Lemmas.NumDest
 /-! Frame lemmas for statements of the fragment of `compile_correct_partial`: `send` from a source
 (account | max | in-order, any overdraft clause) to an account, `save`, `set_tx_meta`, `set_account_meta`,
 `print`, `fail`. -/
@@ -6,31 +6,6 @@ namespace Num
 open VM
 
 variable {E : List (Acct × Asset)}
-
-/-- replace stack, amounts and postings -/
-def VM.Machine.upd3 (m : Machine) (stack : List BVal) (ks : List (Acct × Asset)) (b : Bal) (ps : List Posting) : Machine :=
-  { m with stack := stack, balances := ⟨m.balances.accts, ks, b⟩, postings := ps }
-
-theorem upd_eq_upd3 (m : Machine) (S : List BVal) (ks : List (Acct × Asset)) (b : Bal) : m.upd S ks b = m.upd3 S ks b m.postings := rfl
-
-theorem credit_eq {A : List Acct} {ks : List (Acct × Asset)} {b : Bal} (hok : BalOK A E b) (d : Acct) (s : Asset) (f : Parts) :
-    BalOK A E (Num.credit b d s f) ∧ ∃ ks', VM.credit ⟨A, ks, b⟩ d s f = ⟨A, ks', Num.credit b d s f⟩ := by
-  unfold Num.credit VM.credit Balances.hasAcct
-  by_cases hw : d = "world"
-  · simp only [hw, if_true]; exact ⟨hok, ks, rfl⟩
-  · simp only [hw, if_false]
-    cases hg : b.get d s with
-    | none =>
-      simp only
-      refine ⟨hok, ks, ?_⟩
-      split <;> rfl
-    | some t =>
-      have ha : A.contains d = true := hok.1 d s (by simp [hg])
-      simp only [ha, Bool.not_true, Bool.false_eq_true, if_false]
-      exact ⟨hok.upd ha _ _, _, rfl⟩
-
-theorem step_fundingSum (V : List BVal) (m : Machine) (S : List BVal) (ks : List (Acct × Asset)) (b : Bal) (a : Asset) (p : Parts) :
-    step V .fundingSum (m.upd (.funding a p :: S) ks b) = .ok (m.upd (.mon a (total p) :: .funding a p :: S) ks b) := rfl
 
 /-- `TakeFromSource`: from `mon :: funding :: S` to `taken :: S` -/
 theorem takeFromSource_ok {R : List Resource} {V : List BVal} {env : VEnv} (cx : Ctx R V env) {st st' : CState} {c : Code}
@@ -232,21 +207,108 @@ theorem evalMon_leftAsset {env : VEnv} {e : Expr} {a s : Asset} {n : Int} (h : e
     simp [leftAsset, evalMon, hk] at hl
     exact hl.symm
 
-def Dest.fragAcct : Dest → Bool
-  | .acct e => e.noPortion
-  | _ => false
-
-/-- the statement fragment of `compile_correct_partial` -/
-def Stmt.frag : Stmt → Bool
-  | .send (.mon e) (.src s) d => e.noPortion && s.frag && d.fragAcct
-  | .send (.all ae) (.src s) d => ae.noPortion && s.frag && d.fragAcct
-  | .send _ (.allot _) _ => false
+/-- the statement fragment with the typing facts spelled out (what the frame lemmas use; implied by `Stmt.frag`
+for every statement that compiles, `Stmt.frag0_of_frag`) -/
+def Stmt.frag0 : Stmt → Bool
+  | .send (.mon e) (.src s) d => e.noPortion && s.frag && d.frag
+  | .send (.all ae) (.src s) d => ae.noPortion && s.frag && d.frag
+  | .send (.mon e) (.allot items) d =>
+    e.noPortion && items.all (fun it => it.2.frag) && decide (items.length < 18446744073709551616) &&
+      (items.map (·.1)).all specPos && d.frag
+  | .send (.all _) (.allot _) _ => false
   | .saveMon e acc => e.noPortion && acc.noPortion
   | .saveAll ae acc => ae.noPortion && acc.noPortion
   | .setTxMeta _ v => v.noPortion
   | .setAccountMeta acc _ v => v.noPortion && acc.noPortion
   | .print e => e.noPortion
   | .fail => true
+
+/-- the statement fragment: EVERY statement of the language, with these side conditions — in-order source lists and
+allotments shorter than 2^64 (their length travels through `Uint64()`), no portion literal with a zero denominator in
+an allotment (the parser produces none), and no portion LITERAL as the value of `print` / `set_tx_meta` /
+`set_account_meta` (a de-duplicated portion constant is the same rational, possibly written differently) -/
+def Stmt.frag : Stmt → Bool
+  | .send _ (.src s) d => s.frag && d.frag
+  | .send _ (.allot items) d =>
+    items.all (fun it => it.2.frag) && decide (items.length < 18446744073709551616) && (items.map (·.1)).all specPos && d.frag
+  | .setTxMeta _ v => v.noPortion
+  | .setAccountMeta _ _ v => v.noPortion
+  | .print e => e.noPortion
+  | _ => true
+
+/-- a statement that compiles is well typed, so no portion literal sits where an account, an asset, a number or a
+monetary is required -/
+theorem Stmt.frag0_of_frag {st st' : CState} {s : Stmt} {c : Code} (hv : visitStmt st s = .ok (c, st')) (hf : s.frag = true) :
+    s.frag0 = true := by
+  cases s with
+  | fail => rfl
+  | print e => exact hf
+  | setTxMeta key v => exact hf
+  | setAccountMeta acc key v =>
+    simp only [visitStmt] at hv
+    split at hv
+    · cases hv
+    · split at hv
+      · cases hv
+      · split at hv
+        · cases hv
+        · rename_i aA c2 st2 h2
+          simp only [Stmt.frag] at hf
+          simp only [Stmt.frag0, hf, visitTyped_noPortion h2 (by decide), Bool.and_self]
+  | saveMon e acc =>
+    simp only [visitStmt] at hv
+    split at hv
+    · cases hv
+    · rename_i mA c1 st1 hm
+      split at hv
+      · cases hv
+      · rename_i aA c2 st2 h2
+        simp only [Stmt.frag0, visitTyped_noPortion hm (by decide), visitTyped_noPortion h2 (by decide), Bool.and_self]
+  | saveAll ae acc =>
+    simp only [visitStmt] at hv
+    split at hv
+    · cases hv
+    · rename_i mA c1 st1 hm
+      split at hv
+      · cases hv
+      · rename_i aA c2 st2 h2
+        simp only [Stmt.frag0, visitTyped_noPortion hm (by decide), visitTyped_noPortion h2 (by decide), Bool.and_self]
+  | send amt src d =>
+    simp only [visitStmt] at hv
+    split at hv
+    · cases hv
+    · rename_i c1 st1 hsrc
+      cases amt with
+      | mon e =>
+        cases src with
+        | src sc =>
+          simp only [visitSendSource] at hsrc
+          split at hsrc
+          · cases hsrc
+          · rename_i mA c0 stA hm
+            simp only [Stmt.frag] at hf
+            simp only [Stmt.frag0, visitTyped_noPortion hm (by decide), Bool.true_and, hf]
+        | allot items =>
+          simp only [visitSendSource] at hsrc
+          split at hsrc
+          · cases hsrc
+          · rename_i mA c0 stA hm
+            simp only [Stmt.frag] at hf
+            simp only [Stmt.frag0, visitTyped_noPortion hm (by decide), Bool.true_and, hf]
+      | all ae =>
+        cases src with
+        | src sc =>
+          simp only [visitSendSource] at hsrc
+          split at hsrc
+          · cases hsrc
+          · rename_i aA c0 stA hm
+            simp only [Stmt.frag] at hf
+            simp only [Stmt.frag0, visitTyped_noPortion hm (by decide), Bool.true_and, hf]
+        | allot items =>
+          simp only [visitSendSource] at hsrc
+          split at hsrc
+          · cases hsrc
+          · cases hsrc
 
 /-- the machine mirrors `Spec`'s running state (between two statements) -/
 structure Rel (A : List Acct) (E : List (Acct × Asset)) (m : Machine) (F : Full) : Prop where
@@ -264,12 +326,12 @@ def EntOK (V : List BVal) (nb : List (Addr × List Addr)) (A : List Acct) (E : L
   ∀ a x, InNeeded nb a x → ∀ acct s, V[a]? = some (.acct acct) → (∃ v, V[x]? = some v ∧ assetOf v = some s) →
     A.contains acct = true ∧ (acct, s) ∈ E
 
-/-- `VisitDestination` of an account: from `funding :: S`, send everything and repay what is left -/
-theorem destAcct_ok {R : List Resource} {V : List BVal} {env : VEnv} (cx : Ctx R V env) {st st' : CState} {e : Expr} {c : Code}
-    (hv : visitDestination st (.acct e) = .ok (c, st')) (hsub : Sub st' R) (hidx : VarIdxOK st) (hnp : e.noPortion = true)
+/-- `VisitDestination`: from `funding :: S`, run the destination and repay what it did not send -/
+theorem destination_ok {R : List Resource} {V : List BVal} {env : VEnv} (cx : Ctx R V env) (hp : VPos V) {st st' : CState} {d : Dest} {c : Code}
+    (hv : visitDestination st d = .ok (c, st')) (hsub : Sub st' R) (hidx : VarIdxOK st) (hf : d.frag = true)
     (m : Machine) (S : List BVal) (ks : List (Acct × Asset)) (b : Bal) (hok : BalOK m.balances.accts E b)
     (f : Fund) (hparts : PartsIn m.balances.accts f.parts) :
-    match finishSend env (.acct e) f ⟨b, m.postings⟩ with
+    match finishSend env d f ⟨b, m.postings⟩ with
     | .error er => exec V c (m.upd (.funding f.asset f.parts :: S) ks b) = .error er
     | .ok st2 => BalOK m.balances.accts E st2.bal ∧
         ∃ ks', exec V c (m.upd (.funding f.asset f.parts :: S) ks b) = .ok (m.upd3 S ks' st2.bal st2.postings) := by
@@ -279,38 +341,20 @@ theorem destAcct_ok {R : List Resource} {V : List BVal} {env : VEnv} (cx : Ctx R
   · rename_i c1 st1 h1
     simp only [Except.ok.injEq, Prod.mk.injEq] at hv
     obtain ⟨rfl, rfl⟩ := hv
-    simp only [visitDest] at h1
-    split at h1
-    · cases h1
-    · rename_i o ho
-      split at h1
-      · cases h1
-      · rename_i hty
-        simp only [Except.ok.injEq, Prod.mk.injEq] at h1
-        obtain ⟨rfl, rfl⟩ := h1
-        have hacc := acctExpr_ok cx ho hsub hidx hnp (Classical.not_not.mp hty)
-        simp only [finishSend, evalDest]
-        cases ht : Num.take f.parts (total f.parts) with
-        | none =>
-          simp only
-          simp [exec_append, exec, step_fundingSum, step_take, ht]
-        | some r =>
-          obtain ⟨taken, rest⟩ := r
-          simp only
-          obtain ⟨hp1, hp2⟩ := take_partsIn hparts ht
-          cases hx : evalAcct env e with
-          | error er =>
-            rw [hx] at hacc
-            simp [exec_append, exec, step_fundingSum, step_take, ht, hacc _]
-          | ok d =>
-            rw [hx] at hacc
-            obtain ⟨hex, _⟩ := hacc
-            simp only [emit]
-            obtain ⟨hokc, ks1, hcr⟩ := credit_eq (ks := ks) hok d f.asset taken
-            obtain ⟨hokr, ks2, hrp⟩ := repay_eq (ks := ks1) hokc f.asset hp2
-            refine ⟨hokr, ks2, ?_⟩
-            simp only [exec_append, exec, step_fundingSum, step_take, ht, ne_eq, not_true_eq_false, if_false, hex, push_upd]
-            simp [step, popAcct, popFunding, Machine.upd, Machine.upd3, hcr, hrp]
+    have hD := dest_ok (E := E) cx hp h1 hsub hidx hf m S ks b f hok hparts
+    simp only [finishSend]
+    cases hev : evalDest env d f ⟨b, m.postings⟩ with
+    | error er =>
+      rw [hev] at hD
+      simp only [exec_append, hD]
+    | ok r =>
+      obtain ⟨rest, st2⟩ := r
+      rw [hev] at hD
+      obtain ⟨hok2, hparts2, ks2, hex2⟩ := hD
+      obtain ⟨hok3, ks3, hrp⟩ := step_repay V (m.setPost st2.postings) S ks2 st2.bal hok2 rest.asset hparts2
+      refine ⟨hok3, ks3, ?_⟩
+      simp only [exec_append, hex2, exec, hrp]
+      rfl
 
 /-- the value of a typed expression has the wanted type -/
 theorem typed_val {R : List Resource} {V : List BVal} {env : VEnv} (cx : Ctx R V env) {st st' : CState} {want : BTy} {e : Expr} {a : Addr} {c : Code}
@@ -341,24 +385,242 @@ theorem exec_pushAsset_mon {V : List BVal} {a : Addr} {s : Asset} {n : Int} (h :
     exec V [.apush a, .asset] m = .ok (m.push (.asset s)) := by
   simp [exec, step, h, popValue, Machine.push]
 
-/-- what the code of a statement of the fragment does, in `Spec`'s words -/
-theorem stmt_ok {R : List Resource} {V : List BVal} {env : VEnv} (cx : Ctx R V env) {st st' : CState} {s : Stmt} {c : Code}
+/-- the code of `BUMP n; …`: the constant `n`, `OP_BUMP`, the rest -/
+theorem emitSeq_bump_cons {st st' : CState} {n : Int} {es : List Emit} {c : Code} (h : emitSeq st (.bump n :: es) = .ok (c, st')) :
+    ∃ a st1 c', allocRes st (.const (.num n)) = .ok (a, st1) ∧ emitSeq st1 es = .ok (c', st') ∧ c = .apush a :: .bump :: c' := by
+  simp only [emitSeq] at h
+  split at h
+  · cases h
+  · rename_i a st1 ha
+    split at h
+    · cases h
+    · rename_i c' st2 hr
+      simp only [Except.ok.injEq, Prod.mk.injEq] at h
+      obtain ⟨rfl, rfl⟩ := h
+      exact ⟨a, st1, c', ha, hr, rfl⟩
+
+theorem fundVals_snoc (l : List Fund) (t : Fund) : fundVals (l ++ [t]) = fundVals l ++ [.funding t.asset t.parts] := by
+  simp [fundVals]
+
+/-- the sources of a source allotment: each takes its share; the shares wait on the stack under the fundings taken
+so far -/
+theorem allotSources_ok {R : List Resource} {V : List BVal} {env : VEnv} (cx : Ctx R V env) {asset ma : Asset} {pa : Code}
+    (hpa : ∀ m, exec V pa m = .ok (m.push (.asset asset))) {mA : Addr}
+    {items : List (PortionSpec × Source)} {st st' : CState} {i : Nat} {c : Code} (hmt : HasTy st.resources mA .monetary)
+    (hv : visitAllotSources st pa mA items i = .ok (c, st')) (hsub : Sub st' R) (hidx : VarIdxOK st)
+    (hf : ∀ it ∈ items, it.2.frag = true) (hi : i + items.length < 18446744073709551616) :
+    ∀ (m : Machine) (S T : List BVal) (ks : List (Acct × Asset)) (b : Bal) (parts : List Int), T.length = i →
+      parts.length = items.length → BalOK m.balances.accts E b →
+      match evalAllotSources env asset ma items parts b with
+      | .error er => exec V c (m.upd (T ++ (parts.map (fun x => BVal.mon ma x) ++ S)) ks b) = .error er
+      | .ok (ts, b') => BalOK m.balances.accts E b' ∧ (∀ t ∈ ts, PartsIn m.balances.accts t.parts) ∧ ts.length = items.length ∧
+          ∃ ks', exec V c (m.upd (T ++ (parts.map (fun x => BVal.mon ma x) ++ S)) ks b) =
+            .ok (m.upd (fundVals ts.reverse ++ (T ++ S)) ks' b') := by
+  induction items generalizing st i c with
+  | nil =>
+    simp only [visitAllotSources, Except.ok.injEq, Prod.mk.injEq] at hv
+    obtain ⟨rfl, _⟩ := hv
+    intro m S T ks b parts hT hlen hok
+    have : parts = [] := List.eq_nil_of_length_eq_zero (by simpa using hlen)
+    subst this
+    simp only [evalAllotSources]
+    exact ⟨hok, (by intro t ht; cases ht), rfl, ks, rfl⟩
+  | cons it rest ih =>
+    obtain ⟨p, s⟩ := it
+    simp only [visitAllotSources] at hv
+    split at hv
+    · cases hv
+    · rename_i so hso
+      split at hv
+      · cases hv
+      · rename_i c1 st1 h1
+        split at hv
+        · cases hv
+        · rename_i c2 st2 h2
+          simp only [Except.ok.injEq, Prod.mk.injEq] at hv
+          obtain ⟨rfl, rfl⟩ := hv
+          obtain ⟨hs1, hs2⟩ := visitSource_ok hso
+          have eN := Ext.setNeeded so.st so.needed mA hs2 (Or.inr (hs1.hasTy hmt))
+          have e1 := hs1.trans (eN.trans (emitSeq_ext h1))
+          have e2 := visitAllotSources_ext (e1.hasTy hmt) h2
+          have hsub1 : Sub st1 R := hsub.of_ext e2
+          have hsubS : Sub so.st R := hsub1.of_ext (eN.trans (emitSeq_ext h1))
+          obtain ⟨a, stx, c', hal, hes, rfl⟩ := emitSeq_bump_cons h1
+          have hVa : V[a]? = some (.num ((i : Int) + 1)) := allocNum_val cx hal (hsub1.of_ext (emitSeq_ext hes))
+          have hS := source_ok (E := E) cx asset hpa hso hsubS hidx (hf (p, s) (List.mem_cons_self ..))
+          have ihr := ih (e1.hasTy hmt) h2 (e1.varIdxOK hidx) (fun it hit => hf it (List.mem_cons_of_mem _ hit))
+            (by simp only [List.length_cons] at hi; omega)
+          intro m S T ks b parts hT hlen hok
+          cases parts with
+          | nil => simp at hlen
+          | cons q qs =>
+            have hlen' : qs.length = rest.length := by simpa using hlen
+            simp only [evalAllotSources, List.map_cons, List.cons_append]
+            have h1s := hS m (T ++ (.mon ma q :: (qs.map (fun x => BVal.mon ma x) ++ S))) ks b hok
+            cases hsrc : evalSource env asset s b with
+            | error er =>
+              rw [hsrc] at h1s
+              simp only [exec_append, h1s]
+            | ok r0 =>
+              obtain ⟨f, fb, b1⟩ := r0
+              rw [hsrc] at h1s
+              obtain ⟨hfb, hok1, hparts, ks1, hex1⟩ := h1s
+              -- `BUMP (i+1)` brings the share to the top
+              have hbump : step V .bump (m.upd (.num ((i : Int) + 1) :: .funding f.asset f.parts :: (T ++ (.mon ma q :: (qs.map (fun x => BVal.mon ma x) ++ S)))) ks1 b1) =
+                  .ok (m.upd (.mon ma q :: .funding f.asset f.parts :: (T ++ (qs.map (fun x => BVal.mon ma x) ++ S))) ks1 b1) := by
+                have := step_bumpN V m (qs.map (fun x => BVal.mon ma x) ++ S) ks1 b1 (.funding f.asset f.parts :: T) (.mon ma q)
+                  (by simp only [List.length_cons, hT]; simp only [List.length_cons] at hi; omega)
+                simp only [List.length_cons, hT, List.cons_append] at this
+                have hc : ((i + 1 : Nat) : Int) = (i : Int) + 1 := by omega
+                rw [hc] at this
+                exact this
+              have hT1 := takeFromSource_ok (E := E) cx hes hsub1 m (T ++ (qs.map (fun x => BVal.mon ma x) ++ S)) ks1 b1 hok1 f hparts fb hfb ma q
+              simp only
+              cases htk : takeFromSource fb f ma q b1 with
+              | error er =>
+                rw [htk] at hT1
+                simp only [exec_append, hex1, exec_cons, step_apush hVa, push_upd, hbump, hT1]
+              | ok r1 =>
+                obtain ⟨t, b2⟩ := r1
+                rw [htk] at hT1
+                obtain ⟨hok2, hparts2, ks2, hex2⟩ := hT1
+                have hR := ihr m S (.funding t.asset t.parts :: T) ks2 b2 qs (by simp [hT]) hlen' hok2
+                simp only [List.cons_append] at hR
+                simp only
+                cases hrest : evalAllotSources env asset ma rest qs b2 with
+                | error er =>
+                  rw [hrest] at hR
+                  simp only [exec_append, hex1, exec_cons, step_apush hVa, push_upd, hbump, hex2, hR]
+                | ok r2 =>
+                  obtain ⟨ts, b3⟩ := r2
+                  rw [hrest] at hR
+                  obtain ⟨hok3, hparts3, hlen3, ks3, hex3⟩ := hR
+                  refine ⟨hok3, ?_, by simp [hlen3], ks3, ?_⟩
+                  · intro t' ht'
+                    rcases List.mem_cons.mp ht' with rfl | ht'
+                    · exact hparts2
+                    · exact hparts3 t' ht'
+                  · simp only [exec_append, hex1, exec_cons, step_apush hVa, push_upd, hbump, hex2, hex3]
+                    simp [fundVals]
+
+/-- the machine mirrors `Spec`'s running state, metadata values and printed values being related by `Q` -/
+structure RelQ (Q : BVal → Val → Prop) (A : List Acct) (E : List (Acct × Asset)) (m : Machine) (F : Full) : Prop where
+  stack : m.stack = []
+  accts : m.balances.accts = A
+  bal : m.balances.bal = F.st.bal
+  postings : m.postings = F.st.postings
+  txMeta : List.Forall₂ (fun (x : String × BVal) (y : String × Val) => x.1 = y.1 ∧ Q x.2 y.2) m.txMeta F.txMeta
+  acctMeta : List.Forall₂ (fun (x : Acct × String × BVal) (y : Acct × String × Val) => x.1 = y.1 ∧ x.2.1 = y.2.1 ∧ Q x.2.2 y.2.2)
+    m.acctMeta F.acctMeta
+  prints : List.Forall₂ Q m.prints F.prints
+  ok : BalOK A E F.st.bal
+
+theorem forall2_filter {α β} {R : α → β → Prop} {p : α → Bool} {q : β → Bool} {l : List α} {l' : List β}
+    (h : List.Forall₂ R l l') (hpq : ∀ x y, R x y → p x = q y) : List.Forall₂ R (l.filter p) (l'.filter q) := by
+  induction h with
+  | nil => exact List.Forall₂.nil
+  | @cons x y l l' hxy _ ih =>
+    rw [List.filter_cons, List.filter_cons, hpq x y hxy]
+    split
+    · exact List.Forall₂.cons hxy ih
+    · exact ih
+
+theorem setKey_forall2 {Q : BVal → Val → Prop} {l : List (String × BVal)} {l' : List (String × Val)}
+    (h : List.Forall₂ (fun (x : String × BVal) (y : String × Val) => x.1 = y.1 ∧ Q x.2 y.2) l l') (k : String) {v : BVal} {v' : Val}
+    (hv : Q v v') :
+    List.Forall₂ (fun (x : String × BVal) (y : String × Val) => x.1 = y.1 ∧ Q x.2 y.2) (setKey l k v) (setKey l' k v') := by
+  unfold setKey
+  refine forall2_append (forall2_filter h ?_) (List.Forall₂.cons ⟨rfl, hv⟩ List.Forall₂.nil)
+  intro x y hxy
+  rw [hxy.1]
+
+theorem acctMeta_forall2 {Q : BVal → Val → Prop} {l : List (Acct × String × BVal)} {l' : List (Acct × String × Val)}
+    (h : List.Forall₂ (fun (x : Acct × String × BVal) (y : Acct × String × Val) => x.1 = y.1 ∧ x.2.1 = y.2.1 ∧ Q x.2.2 y.2.2) l l')
+    (a : Acct) (k : String) {v : BVal} {v' : Val} (hv : Q v v') :
+    List.Forall₂ (fun (x : Acct × String × BVal) (y : Acct × String × Val) => x.1 = y.1 ∧ x.2.1 = y.2.1 ∧ Q x.2.2 y.2.2)
+      (l.filter (fun x => ¬ (x.1 = a ∧ x.2.1 = k)) ++ [(a, k, v)]) (l'.filter (fun m => ¬ (m.1 = a ∧ m.2.1 = k)) ++ [(a, k, v')]) := by
+  refine forall2_append (forall2_filter h ?_) (List.Forall₂.cons ⟨rfl, rfl, hv⟩ List.Forall₂.nil)
+  intro x y hxy
+  rw [hxy.1, hxy.2.1]
+
+/-- `Q` = the VM holds exactly the image of `Spec`'s value -/
+def ExactQ (w : BVal) (v : Val) : Prop := w = BVal.ofVal v
+
+theorem forall2_exact_tx {l : List (String × BVal)} {l' : List (String × Val)} :
+    List.Forall₂ (fun (x : String × BVal) (y : String × Val) => x.1 = y.1 ∧ ExactQ x.2 y.2) l l' ↔
+      l = l'.map (fun kv => (kv.1, BVal.ofVal kv.2)) := by
+  constructor
+  · intro h
+    induction h with
+    | nil => rfl
+    | @cons x y l l' hxy _ ih =>
+      obtain ⟨x1, x2⟩ := x
+      simp only [ExactQ] at hxy
+      obtain ⟨rfl, rfl⟩ := hxy
+      rw [ih]; rfl
+  · rintro rfl
+    induction l' with
+    | nil => exact List.Forall₂.nil
+    | cons y l' ih => exact List.Forall₂.cons ⟨rfl, rfl⟩ ih
+
+theorem forall2_exact_acct {l : List (Acct × String × BVal)} {l' : List (Acct × String × Val)} :
+    List.Forall₂ (fun (x : Acct × String × BVal) (y : Acct × String × Val) => x.1 = y.1 ∧ x.2.1 = y.2.1 ∧ ExactQ x.2.2 y.2.2) l l' ↔
+      l = l'.map (fun x => (x.1, x.2.1, BVal.ofVal x.2.2)) := by
+  constructor
+  · intro h
+    induction h with
+    | nil => rfl
+    | @cons x y l l' hxy _ ih =>
+      obtain ⟨x1, x2, x3⟩ := x
+      simp only [ExactQ] at hxy
+      obtain ⟨rfl, rfl, rfl⟩ := hxy
+      rw [ih]; rfl
+  · rintro rfl
+    induction l' with
+    | nil => exact List.Forall₂.nil
+    | cons y l' ih => exact List.Forall₂.cons ⟨rfl, rfl, rfl⟩ ih
+
+theorem forall2_exact_prints {l : List BVal} {l' : List Val} : List.Forall₂ ExactQ l l' ↔ l = l'.map BVal.ofVal := by
+  constructor
+  · intro h
+    induction h with
+    | nil => rfl
+    | @cons x y l l' hxy _ ih => simp only [ExactQ] at hxy; subst hxy; rw [ih]; rfl
+  · rintro rfl
+    induction l' with
+    | nil => exact List.Forall₂.nil
+    | cons y l' ih => exact List.Forall₂.cons rfl ih
+
+theorem Rel.toQ {A : List Acct} {m : Machine} {F : Full} (h : Rel A E m F) : RelQ ExactQ A E m F :=
+  ⟨h.stack, h.accts, h.bal, h.postings, forall2_exact_tx.mpr h.txMeta, forall2_exact_acct.mpr h.acctMeta,
+    forall2_exact_prints.mpr h.prints, h.ok⟩
+
+theorem RelQ.toRel {A : List Acct} {m : Machine} {F : Full} (h : RelQ ExactQ A E m F) : Rel A E m F :=
+  ⟨h.stack, h.accts, h.bal, h.postings, forall2_exact_tx.mp h.txMeta, forall2_exact_acct.mp h.acctMeta,
+    forall2_exact_prints.mp h.prints, h.ok⟩
+
+/-- what the code of a statement of the fragment does, in `Spec`'s words; metadata and printed values are related by
+any `Q` that relates `ofVal v` to `v` (equality for `compile_correct_partial`, equality of the rendered strings
+for the end-to-end statement) -/
+theorem stmt_okQ {Q : BVal → Val → Prop} (hQ : ∀ v, Q (BVal.ofVal v) v)
+    {R : List Resource} {V : List BVal} {env : VEnv} (cx : Ctx R V env) (hp : VPos V) {st st' : CState} {s : Stmt} {c : Code}
     (hv : visitStmt st s = .ok (c, st')) (hsub : Sub st' R) (hidx : VarIdxOK st) (hf : s.frag = true)
-    {A : List Acct} (hE : EntOK V st'.needed A E) (m : Machine) (F : Full) (hrel : Rel A E m F) :
+    {A : List Acct} (hE : EntOK V st'.needed A E) (m : Machine) (F : Full) (hrel : RelQ Q A E m F) :
     match evalStmt env s F with
     | .error er => exec V c m = .error er
-    | .ok F' => ∃ m', exec V c m = .ok m' ∧ Rel A E m' F' := by
+    | .ok F' => ∃ m', exec V c m = .ok m' ∧ RelQ Q A E m' F' := by
+  have hf := Stmt.frag0_of_frag hv hf
   obtain ⟨stk, ⟨accts, keys, bal⟩, ps, tm, am, pr⟩ := m
   obtain ⟨h1, h2, h3, h4, h5, h6, h7, hok⟩ := hrel
   simp only at h1 h2 h3 h4 h5 h6 h7
-  subst h1 h2 h3 h4 h5 h6 h7
+  subst h1 h2 h3 h4
   cases s with
   | fail =>
     simp only [visitStmt, Except.ok.injEq, Prod.mk.injEq] at hv
     obtain ⟨rfl, _⟩ := hv
     simp [evalStmt, exec, step]
   | print e =>
-    simp only [Stmt.frag] at hf
+    simp only [Stmt.frag0] at hf
     simp only [visitStmt] at hv
     split at hv
     · cases hv
@@ -372,9 +634,9 @@ theorem stmt_ok {R : List Resource} {V : List BVal} {env : VEnv} (cx : Ctx R V e
       | ok x =>
         rw [he] at h
         refine ⟨_, by simp only [exec_append, h.2, exec, step, popValue, Machine.push]; rfl, ?_⟩
-        exact ⟨rfl, rfl, rfl, rfl, rfl, rfl, by simp, hok⟩
+        exact ⟨rfl, rfl, rfl, rfl, h5, h6, forall2_append h7 (List.Forall₂.cons (hQ x) List.Forall₂.nil), hok⟩
   | setTxMeta key v =>
-    simp only [Stmt.frag] at hf
+    simp only [Stmt.frag0] at hf
     simp only [visitStmt] at hv
     split at hv
     · cases hv
@@ -395,9 +657,9 @@ theorem stmt_ok {R : List Resource} {V : List BVal} {env : VEnv} (cx : Ctx R V e
         | ok x =>
           rw [he] at h
           refine ⟨_, by simp only [exec_append, h.2, exec, hVk, step, popStr, popValue, Machine.push]; rfl, ?_⟩
-          exact ⟨rfl, rfl, rfl, rfl, by simp only; rw [setKey_map], rfl, rfl, hok⟩
+          exact ⟨rfl, rfl, rfl, rfl, setKey_forall2 h5 key (hQ x), h6, h7, hok⟩
   | setAccountMeta acc key v =>
-    simp only [Stmt.frag, Bool.and_eq_true] at hf
+    simp only [Stmt.frag0, Bool.and_eq_true] at hf
     simp only [visitStmt] at hv
     split at hv
     · cases hv
@@ -425,10 +687,9 @@ theorem stmt_ok {R : List Resource} {V : List BVal} {env : VEnv} (cx : Ctx R V e
             rw [he] at h
             simp only [hx]
             refine ⟨_, by simp only [exec_append, h.2, exec, hVk, hVa, step, popStr, popAcct, popValue, Machine.push]; rfl, ?_⟩
-            refine ⟨rfl, rfl, rfl, rfl, rfl, ?_, rfl, hok⟩
-            simp [List.filter_map, Function.comp_def]
+            exact ⟨rfl, rfl, rfl, rfl, h5, acctMeta_forall2 h6 x key (hQ y), h7, hok⟩
   | saveMon e acc =>
-    simp only [Stmt.frag, Bool.and_eq_true] at hf
+    simp only [Stmt.frag0, Bool.and_eq_true] at hf
     simp only [visitStmt] at hv
     split at hv
     · cases hv
@@ -465,9 +726,9 @@ theorem stmt_ok {R : List Resource} {V : List BVal} {env : VEnv} (cx : Ctx R V e
               simp only
               refine ⟨_, by simp only [exec_append, hcode, exec, hVa, step, popAcct, popValue, Machine.push, hneg, if_false,
                 Balances.hasAcct, hent.1, Bool.not_true, Bool.false_eq_true, hg, Option.getD_some]; rfl, ?_⟩
-              exact ⟨rfl, rfl, rfl, rfl, rfl, rfl, rfl, hok.upd hent.1 _ _⟩
+              exact ⟨rfl, rfl, rfl, rfl, h5, h6, h7, hok.upd hent.1 _ _⟩
   | saveAll ae acc =>
-    simp only [Stmt.frag, Bool.and_eq_true] at hf
+    simp only [Stmt.frag0, Bool.and_eq_true] at hf
     simp only [visitStmt] at hv
     split at hv
     · cases hv
@@ -493,11 +754,11 @@ theorem stmt_ok {R : List Resource} {V : List BVal} {env : VEnv} (cx : Ctx R V e
           · refine ⟨_, by simp only [exec, hVs, hVa, step, popAcct, popValue, Machine.push,
               Balances.hasAcct, hent.1, Bool.not_true, Bool.false_eq_true, if_false, hg, hpos, if_true]; rfl, ?_⟩
             simp only [hpos, if_true]
-            exact ⟨rfl, rfl, rfl, rfl, rfl, rfl, rfl, hok.upd hent.1 _ _⟩
+            exact ⟨rfl, rfl, rfl, rfl, h5, h6, h7, hok.upd hent.1 _ _⟩
           · refine ⟨_, by simp only [exec, hVs, hVa, step, popAcct, popValue, Machine.push,
               Balances.hasAcct, hent.1, Bool.not_true, Bool.false_eq_true, if_false, hg, hpos]; rfl, ?_⟩
             simp only [hpos, if_false]
-            exact ⟨rfl, rfl, rfl, rfl, rfl, rfl, rfl, hok⟩
+            exact ⟨rfl, rfl, rfl, rfl, h5, h6, h7, hok⟩
   | send amt src d =>
     simp only [visitStmt] at hv
     split at hv
@@ -511,16 +772,156 @@ theorem stmt_ok {R : List Resource} {V : List BVal} {env : VEnv} (cx : Ctx R V e
         have hsub2 : Sub st2 R := hsub
         have hed := visitDestination_ext hdst
         have hes := visitSendSource_ext hsrc
-        cases d with
-        | inorder _ _ => cases amt <;> cases src <;> simp [Stmt.frag, Dest.fragAcct] at hf
-        | allot _ => cases amt <;> cases src <;> simp [Stmt.frag, Dest.fragAcct] at hf
-        | acct e' =>
-          cases src with
-          | allot items => cases amt <;> simp [Stmt.frag] at hf
+        · cases src with
+          | allot items =>
+            cases amt with
+            | all ae => simp [Stmt.frag0] at hf
+            | mon e =>
+              simp only [Stmt.frag0, Bool.and_eq_true, decide_eq_true_eq, List.all_eq_true] at hf
+              obtain ⟨⟨⟨⟨hfe, hfs⟩, hflen⟩, hfq⟩, hfd⟩ := hf
+              simp only [visitSendSource] at hsrc
+              split at hsrc
+              · cases hsrc
+              · rename_i mA c0 stA hm
+                split at hsrc
+                · cases hsrc
+                · rename_i eo heo
+                  split at hsrc
+                  · cases hsrc
+                  · rename_i ca stB hal
+                    split at hsrc
+                    · cases hsrc
+                    · rename_i cs stC has
+                      split at hsrc
+                      · cases hsrc
+                      · rename_i cf stD hfin
+                        simp only [Except.ok.injEq, Prod.mk.injEq] at hsrc
+                        obtain ⟨rfl, rfl⟩ := hsrc
+                        obtain ⟨heA, tA⟩ := visitTyped_ok hm
+                        have heE := visitExpr_ext heo
+                        have heL := visitAllotment_ext hal
+                        have hmB : HasTy stB.resources mA .monetary := heL.hasTy (heE.hasTy tA)
+                        have heS := visitAllotSources_ext hmB has
+                        have heF := emitSeq_ext hfin
+                        have hsubD : Sub stD R := hsub2.of_ext hed
+                        have hsubC : Sub stC R := hsubD.of_ext heF
+                        have hsubB : Sub stB R := hsubC.of_ext heS
+                        have hsubE : Sub eo.st R := hsubB.of_ext heL
+                        have hsubA : Sub stA R := hsubE.of_ext heE
+                        obtain ⟨_, a0, n0, hla, hVm⟩ := monTyped_ok cx hm hsubA hidx hfe
+                        have hpa := fun mm => exec_pushAsset_mon (V := V) hVm mm
+                        have hX := (expr_ok cx heo hsubE (heA.varIdxOK hidx) hfe).1
+                        have hidxB : VarIdxOK stB := (heA.trans (heE.trans heL)).varIdxOK hidx
+                        have hA := allotment_ok cx hp hal hsubB ((heA.trans heE).varIdxOK hidx)
+                          (fun q hq => hfq q hq)
+                          (by rw [List.length_map]; exact hflen)
+                        have hcf := emitSeq_exec cx hfin hsubD
+                        have hidxT : VarIdxOK stD := hes.varIdxOK hidx
+                        obtain ⟨m0, hm0⟩ : ∃ m0 : Machine, m0 = (⟨[], ⟨accts, keys, F.st.bal⟩, F.st.postings, tm, am, pr⟩ : Machine) := ⟨_, rfl⟩
+                        have hm0u : m0.upd [] keys F.st.bal = m0 := by subst hm0; rfl
+                        have hm0a : m0.balances.accts = accts := by subst hm0; rfl
+                        have hm0p : m0.postings = F.st.postings := by subst hm0; rfl
+                        have hok0 : BalOK m0.balances.accts E F.st.bal := by rw [hm0a]; exact hok
+                        rw [← hm0]
+                        simp only [evalStmt, evalSend]
+                        cases hem : evalMon env e with
+                        | error er =>
+                          simp only [evalMon] at hem
+                          cases hee : evalExpr env e with
+                          | error er' =>
+                            rw [hee] at hX hem
+                            simp only [Except.error.injEq] at hem; subst hem
+                            simp only [exec_append, hX]
+                          | ok v =>
+                            have := typed_val cx hm hsubA hidx hfe hee
+                            obtain ⟨a', n', rfl⟩ := ofVal_bty_mon this
+                            simp [hee] at hem
+                        | ok r =>
+                          obtain ⟨ma, mn⟩ := r
+                          have hee : evalExpr env e = .ok (.mon ma mn) := by
+                            simp only [evalMon] at hem
+                            cases hee : evalExpr env e with
+                            | error er' => simp [hee] at hem
+                            | ok v =>
+                              have := typed_val cx hm hsubA hidx hfe hee
+                              obtain ⟨a', n', rfl⟩ := ofVal_bty_mon this
+                              simp only [hee, Except.ok.injEq, Prod.mk.injEq] at hem
+                              obtain ⟨rfl, rfl⟩ := hem; rfl
+                          rw [hee] at hX
+                          have hX2 : exec V eo.code m0 = .ok (m0.upd [.mon ma mn] keys F.st.bal) := by
+                            rw [hX.2]; subst hm0; rfl
+                          simp only [hla]
+                          cases hrp : resolvePortions env (items.map (·.1)) with
+                          | error er =>
+                            rw [hrp] at hA
+                            simp only [exec_append, hX2, hA]
+                          | ok al =>
+                            rw [hrp] at hA
+                            obtain ⟨al', hrel, hexA⟩ := hA
+                            have hplen : (allocate al mn).length = items.length := by
+                              rw [allocate_length, resolvePortions_length hrp, List.length_map]
+                            have hSrc := allotSources_ok (E := E) (ma := ma) cx hpa hmB has hsubC hidxB (fun it hit => hfs it hit)
+                              (by simpa using hflen) m0 [] [] keys F.st.bal (allocate al mn) rfl hplen hok0
+                            simp only [List.nil_append, List.append_nil] at hSrc
+                            have hpre : exec V (eo.code ++ ca ++ [.alloc]) m0 =
+                                .ok (m0.upd ((allocate al mn).map (fun x => BVal.mon ma x)) keys F.st.bal) := by
+                              simp only [exec_append, hX2, hexA, push_upd, exec, step_alloc, ← allocate_ratsRel hrel, List.append_nil]
+                            have hcode : eo.code ++ ca ++ [.alloc] ++ cs ++ cf ++ c2 = (eo.code ++ ca ++ [.alloc]) ++ (cs ++ (cf ++ c2)) := by
+                              simp only [List.append_assoc]
+                            rw [hcode, exec_append, hpre]
+                            simp only
+                            cases hsrcs : evalAllotSources env a0 ma items (allocate al mn) F.st.bal with
+                            | error er =>
+                              rw [hsrcs] at hSrc
+                              simp only [exec_append, hSrc]
+                            | ok r1 =>
+                              obtain ⟨ts, b1⟩ := r1
+                              rw [hsrcs] at hSrc
+                              obtain ⟨hok1, hparts1, hlen1, ks1, hex1⟩ := hSrc
+                              have hasm := step_assembleN V m0 [] ks1 b1 ts (by rw [hlen1]; exact hflen)
+                              simp only [List.append_nil] at hasm
+                              have hnn : ((items.length : Nat) : Int) = (ts.length : Int) := by rw [hlen1]
+                              simp only
+                              cases has' : assemble ts with
+                              | error er =>
+                                rw [has'] at hasm
+                                simp only [exec_append, hex1, hcf, runEmits, push_upd, hnn, hasm]
+                              | ok f =>
+                                rw [has'] at hasm
+                                have hpf : PartsIn m0.balances.accts f.parts := by
+                                  unfold assemble at has'
+                                  split at has'
+                                  · cases has'
+                                  · split at has'
+                                    · simp only [Except.ok.injEq] at has'; subst has'
+                                      simp only
+                                      have : ∀ (acc : Parts), PartsIn m0.balances.accts acc → ∀ (l : List Fund), (∀ f ∈ l, PartsIn m0.balances.accts f.parts) →
+                                          PartsIn m0.balances.accts (l.foldl (fun acc f => concat acc f.parts) acc) := by
+                                        intro acc hacc l
+                                        induction l generalizing acc with
+                                        | nil => intro _; exact hacc
+                                        | cons g gs ihl =>
+                                          intro hl
+                                          exact ihl _ (concat_partsIn hacc (hl g (List.mem_cons_self ..))) (fun f hf => hl f (List.mem_cons_of_mem _ hf))
+                                      exact this [] (by intro q hq; cases hq) ts hparts1
+                                    · cases has'
+                                have hD := destination_ok (E := E) cx hp hdst hsub2 hidxT hfd m0 [] ks1 b1 hok1 f hpf
+                                rw [hm0p] at hD
+                                simp only
+                                cases hfin' : finishSend env d f ⟨b1, F.st.postings⟩ with
+                                | error er =>
+                                  rw [hfin'] at hD
+                                  simp only [exec_append, hex1, hcf, runEmits, push_upd, hnn, hasm, hD]
+                                | ok st3 =>
+                                  rw [hfin'] at hD
+                                  obtain ⟨hok3, ks3, hex3⟩ := hD
+                                  refine ⟨m0.upd3 [] ks3 st3.bal st3.postings, by simp only [exec_append, hex1, hcf, runEmits, push_upd, hnn, hasm, hex3], ?_⟩
+                                  subst hm0
+                                  exact ⟨rfl, rfl, rfl, rfl, h5, h6, h7, by rw [hm0a] at hok3; exact hok3⟩
           | src sc =>
             cases amt with
             | mon e =>
-              simp only [Stmt.frag, Dest.fragAcct, Bool.and_eq_true] at hf
+              simp only [Stmt.frag0, Bool.and_eq_true] at hf
               obtain ⟨⟨hfe, hfs⟩, hfd⟩ := hf
               simp only [visitSendSource] at hsrc
               split at hsrc
@@ -554,17 +955,17 @@ theorem stmt_ok {R : List Resource} {V : List BVal} {env : VEnv} (cx : Ctx R V e
                       have hX := (expr_ok cx heo hsubE hidxN hfe).1
                       have hidxT : VarIdxOK stT := hes.varIdxOK hidx
                       simp only [evalStmt, evalSend, hla]
-                      have hs1 := hS (⟨[], ⟨accts, keys, F.st.bal⟩, F.st.postings, F.txMeta.map (fun kv => (kv.1, BVal.ofVal kv.2)), F.acctMeta.map (fun x => (x.1, x.2.1, BVal.ofVal x.2.2)), F.prints.map BVal.ofVal⟩ : Machine) [] keys F.st.bal hok
+                      have hs1 := hS (⟨[], ⟨accts, keys, F.st.bal⟩, F.st.postings, tm, am, pr⟩ : Machine) [] keys F.st.bal hok
                       cases hsrcv : evalSource env a0 sc F.st.bal with
                       | error er =>
                         rw [hsrcv] at hs1
-                        have : exec V so.code (⟨[], ⟨accts, keys, F.st.bal⟩, F.st.postings, F.txMeta.map (fun kv => (kv.1, BVal.ofVal kv.2)), F.acctMeta.map (fun x => (x.1, x.2.1, BVal.ofVal x.2.2)), F.prints.map BVal.ofVal⟩ : Machine) = .error er := hs1
+                        have : exec V so.code (⟨[], ⟨accts, keys, F.st.bal⟩, F.st.postings, tm, am, pr⟩ : Machine) = .error er := hs1
                         simp only [exec_append, this]
                       | ok r =>
                         obtain ⟨f, fb, b1⟩ := r
                         rw [hsrcv] at hs1
                         obtain ⟨hfb, hok1, hparts, ks1, hex1⟩ := hs1
-                        have hex1' : exec V so.code (⟨[], ⟨accts, keys, F.st.bal⟩, F.st.postings, F.txMeta.map (fun kv => (kv.1, BVal.ofVal kv.2)), F.acctMeta.map (fun x => (x.1, x.2.1, BVal.ofVal x.2.2)), F.prints.map BVal.ofVal⟩ : Machine) = _ := hex1
+                        have hex1' : exec V so.code (⟨[], ⟨accts, keys, F.st.bal⟩, F.st.postings, tm, am, pr⟩ : Machine) = _ := hex1
                         simp only
                         cases hem : evalMon env e with
                         | error er =>
@@ -590,7 +991,7 @@ theorem stmt_ok {R : List Resource} {V : List BVal} {env : VEnv} (cx : Ctx R V e
                               simp only [hee, Except.ok.injEq, Prod.mk.injEq] at hem
                               obtain ⟨rfl, rfl⟩ := hem; rfl
                           rw [hee] at hX
-                          have hT := takeFromSource_ok (E := E) cx hct hsubT (⟨[], ⟨accts, keys, F.st.bal⟩, F.st.postings, F.txMeta.map (fun kv => (kv.1, BVal.ofVal kv.2)), F.acctMeta.map (fun x => (x.1, x.2.1, BVal.ofVal x.2.2)), F.prints.map BVal.ofVal⟩ : Machine)
+                          have hT := takeFromSource_ok (E := E) cx hct hsubT (⟨[], ⟨accts, keys, F.st.bal⟩, F.st.postings, tm, am, pr⟩ : Machine)
                             [] ks1 b1 hok1 f hparts fb hfb ma mn
                           simp only
                           cases htk : takeFromSource fb f ma mn b1 with
@@ -601,10 +1002,10 @@ theorem stmt_ok {R : List Resource} {V : List BVal} {env : VEnv} (cx : Ctx R V e
                             obtain ⟨taken, b2⟩ := r
                             rw [htk] at hT
                             obtain ⟨hok2, hparts2, ks2, hex2⟩ := hT
-                            have hD := destAcct_ok (E := E) cx hdst hsub2 hidxT hfd (⟨[], ⟨accts, keys, F.st.bal⟩, F.st.postings, F.txMeta.map (fun kv => (kv.1, BVal.ofVal kv.2)), F.acctMeta.map (fun x => (x.1, x.2.1, BVal.ofVal x.2.2)), F.prints.map BVal.ofVal⟩ : Machine)
+                            have hD := destination_ok (E := E) cx hp hdst hsub2 hidxT hfd (⟨[], ⟨accts, keys, F.st.bal⟩, F.st.postings, tm, am, pr⟩ : Machine)
                               [] ks2 b2 hok2 taken hparts2
                             simp only
-                            cases hfin : finishSend env (.acct e') taken ⟨b2, F.st.postings⟩ with
+                            cases hfin : finishSend env d taken ⟨b2, F.st.postings⟩ with
                             | error er =>
                               rw [hfin] at hD
                               simp only [exec_append, hex1', hX.2, push_upd, ofVal_mon, hex2, hD]
@@ -612,9 +1013,9 @@ theorem stmt_ok {R : List Resource} {V : List BVal} {env : VEnv} (cx : Ctx R V e
                               rw [hfin] at hD
                               obtain ⟨hok3, ks3, hex3⟩ := hD
                               refine ⟨_, by first | (simp only [exec_append, hex1', hX.2, push_upd, ofVal_mon, hex2, hex3]; done) | (simp only [exec_append, hex1', hX.2, push_upd, ofVal_mon, hex2, hex3]; rfl), ?_⟩
-                              exact ⟨rfl, rfl, rfl, rfl, rfl, rfl, rfl, hok3⟩
+                              exact ⟨rfl, rfl, rfl, rfl, h5, h6, h7, hok3⟩
             | all ae =>
-              simp only [Stmt.frag, Dest.fragAcct, Bool.and_eq_true] at hf
+              simp only [Stmt.frag0, Bool.and_eq_true] at hf
               obtain ⟨⟨hfe, hfs⟩, hfd⟩ := hf
               simp only [visitSendSource] at hsrc
               split at hsrc
@@ -635,21 +1036,21 @@ theorem stmt_ok {R : List Resource} {V : List BVal} {env : VEnv} (cx : Ctx R V e
                   have hS := source_ok (E := E) cx a0 hpa hso hsubS (heA.varIdxOK hidx) hfs
                   have hidxT : VarIdxOK (setNeeded so.st so.needed aA) := hes.varIdxOK hidx
                   simp only [evalStmt, evalSend, ha0]
-                  have hs1 := hS (⟨[], ⟨accts, keys, F.st.bal⟩, F.st.postings, F.txMeta.map (fun kv => (kv.1, BVal.ofVal kv.2)), F.acctMeta.map (fun x => (x.1, x.2.1, BVal.ofVal x.2.2)), F.prints.map BVal.ofVal⟩ : Machine) [] keys F.st.bal hok
+                  have hs1 := hS (⟨[], ⟨accts, keys, F.st.bal⟩, F.st.postings, tm, am, pr⟩ : Machine) [] keys F.st.bal hok
                   cases hsrcv : evalSource env a0 sc F.st.bal with
                   | error er =>
                     rw [hsrcv] at hs1
-                    have : exec V so.code (⟨[], ⟨accts, keys, F.st.bal⟩, F.st.postings, F.txMeta.map (fun kv => (kv.1, BVal.ofVal kv.2)), F.acctMeta.map (fun x => (x.1, x.2.1, BVal.ofVal x.2.2)), F.prints.map BVal.ofVal⟩ : Machine) = .error er := hs1
+                    have : exec V so.code (⟨[], ⟨accts, keys, F.st.bal⟩, F.st.postings, tm, am, pr⟩ : Machine) = .error er := hs1
                     simp only [exec_append, this]
                   | ok r =>
                     obtain ⟨f, fb, b1⟩ := r
                     rw [hsrcv] at hs1
                     obtain ⟨hfb, hok1, hparts, ks1, hex1⟩ := hs1
-                    have hex1' : exec V so.code (⟨[], ⟨accts, keys, F.st.bal⟩, F.st.postings, F.txMeta.map (fun kv => (kv.1, BVal.ofVal kv.2)), F.acctMeta.map (fun x => (x.1, x.2.1, BVal.ofVal x.2.2)), F.prints.map BVal.ofVal⟩ : Machine) = _ := hex1
-                    have hD := destAcct_ok (E := E) cx hdst hsub2 hidxT hfd (⟨[], ⟨accts, keys, F.st.bal⟩, F.st.postings, F.txMeta.map (fun kv => (kv.1, BVal.ofVal kv.2)), F.acctMeta.map (fun x => (x.1, x.2.1, BVal.ofVal x.2.2)), F.prints.map BVal.ofVal⟩ : Machine)
+                    have hex1' : exec V so.code (⟨[], ⟨accts, keys, F.st.bal⟩, F.st.postings, tm, am, pr⟩ : Machine) = _ := hex1
+                    have hD := destination_ok (E := E) cx hp hdst hsub2 hidxT hfd (⟨[], ⟨accts, keys, F.st.bal⟩, F.st.postings, tm, am, pr⟩ : Machine)
                       [] ks1 b1 hok1 f hparts
                     simp only
-                    cases hfin : finishSend env (.acct e') f ⟨b1, F.st.postings⟩ with
+                    cases hfin : finishSend env d f ⟨b1, F.st.postings⟩ with
                     | error er =>
                       rw [hfin] at hD
                       simp only [exec_append, hex1', hD]
@@ -657,12 +1058,27 @@ theorem stmt_ok {R : List Resource} {V : List BVal} {env : VEnv} (cx : Ctx R V e
                       rw [hfin] at hD
                       obtain ⟨hok3, ks3, hex3⟩ := hD
                       refine ⟨_, by first | (simp only [exec_append, hex1', hex3]; done) | (simp only [exec_append, hex1', hex3]; rfl), ?_⟩
-                      exact ⟨rfl, rfl, rfl, rfl, rfl, rfl, rfl, hok3⟩
+                      exact ⟨rfl, rfl, rfl, rfl, h5, h6, h7, hok3⟩
+
+/-- what the code of a statement of the fragment does, in `Spec`'s words -/
+theorem stmt_ok {R : List Resource} {V : List BVal} {env : VEnv} (cx : Ctx R V env) (hp : VPos V) {st st' : CState} {s : Stmt} {c : Code}
+    (hv : visitStmt st s = .ok (c, st')) (hsub : Sub st' R) (hidx : VarIdxOK st) (hf : s.frag = true)
+    {A : List Acct} (hE : EntOK V st'.needed A E) (m : Machine) (F : Full) (hrel : Rel A E m F) :
+    match evalStmt env s F with
+    | .error er => exec V c m = .error er
+    | .ok F' => ∃ m', exec V c m = .ok m' ∧ Rel A E m' F' := by
+  have h := stmt_okQ (Q := ExactQ) (fun _ => rfl) cx hp hv hsub hidx hf hE m F hrel.toQ
+  cases hev : evalStmt env s F with
+  | error er => rw [hev] at h; exact h
+  | ok F' =>
+    rw [hev] at h
+    obtain ⟨m', h1, h2⟩ := h
+    exact ⟨m', h1, h2.toRel⟩
 
 theorem EntOK.mono {V : List BVal} {A : List Acct} {st st' : CState} (h : EntOK V st'.needed A E) (he : Ext st st') :
     EntOK V st.needed A E := fun a x hin => h a x (he.mono a x hin)
 
-theorem stmts_ok {R : List Resource} {V : List BVal} {env : VEnv} (cx : Ctx R V env) {st st' : CState} {ss : List Stmt} {c : Code}
+theorem stmts_ok {R : List Resource} {V : List BVal} {env : VEnv} (cx : Ctx R V env) (hp : VPos V) {st st' : CState} {ss : List Stmt} {c : Code}
     (hv : visitStmts st ss = .ok (c, st')) (hsub : Sub st' R) (hidx : VarIdxOK st) (hf : ∀ s ∈ ss, s.frag = true)
     {A : List Acct} (hE : EntOK V st'.needed A E) (m : Machine) (F : Full) (hrel : Rel A E m F) :
     match evalStmts env ss F with
@@ -685,7 +1101,7 @@ theorem stmts_ok {R : List Resource} {V : List BVal} {env : VEnv} (cx : Ctx R V 
         obtain ⟨rfl, rfl⟩ := hv
         have he2 := visitStmts_ext h2
         have he1 := visitStmt_ext h1
-        have hs := stmt_ok cx h1 (hsub.of_ext he2) hidx (hf s (List.mem_cons_self ..)) (hE.mono he2) m F hrel
+        have hs := stmt_ok cx hp h1 (hsub.of_ext he2) hidx (hf s (List.mem_cons_self ..)) (hE.mono he2) m F hrel
         simp only [evalStmts]
         cases hev : evalStmt env s F with
         | error er =>
@@ -774,7 +1190,7 @@ def Script.frag (P : Script) : Prop := P.stmts ≠ [] ∧ ∀ s ∈ P.stmts, s.f
 `Spec`'s state, given resolved resources: same error, or a final machine that mirrors `Spec`'s final state
 (stack empty: no "stack not empty" panic) -/
 theorem execute_correct {P : Script} {prog : Program} (hc : compile P = .ok prog) (hfr : P.frag)
-    {V : List BVal} {env : VEnv} (cx : Ctx prog.resources V env) {A : List Acct} (hE : EntOK V prog.needed A E)
+    {V : List BVal} {env : VEnv} (cx : Ctx prog.resources V env) (hp : VPos V) {A : List Acct} (hE : EntOK V prog.needed A E)
     (m : Machine) (F : Full) (hrel : Rel A E m F) :
     match evalStmts env P.stmts F with
     | .error er => VM.execute prog.instrs V m = .error er
@@ -804,7 +1220,7 @@ theorem execute_correct {P : Script} {prog : Program} (hc : compile P = .ok prog
               have := visitStmt_code_ne_nil hh
               intro hcontra
               exact this (List.append_eq_nil_iff.mp hcontra).1
-      have hs := stmts_ok cx h1 (fun a r hr => hr) hidx hfr.2 hE m F hrel
+      have hs := stmts_ok cx hp h1 (fun a r hr => hr) hidx hfr.2 hE m F hrel
       cases code with
       | nil => exact absurd rfl hne
       | cons i is =>
